@@ -313,10 +313,12 @@ func threeWay(c *kit.Case, rt reflect.Type, label string, tx texts, count bool) 
 
 // keyCase runs oracle 2 on one document: the formats whose result changes when only the letter
 // case of struct-field keys changes.
-func keyCase(c *kit.Case, r, rs *kit.Rand, rt reflect.Type, label string, d0 *node, tx0 texts, res0 [3]outcome) (bad []string, kind string, wit map[string]any) {
+func keyCase(c *kit.Case, salt uint64, rs *kit.Rand, rt reflect.Type, label string, d0 *node, tx0 texts, res0 [3]outcome) (bad []string, kind string, wit map[string]any) {
+	// the new spelling of a key is a function of (salt, key), so that the document without the
+	// mismatch can be re-spelled in exactly the same way
 	d1 := d0.clone(func(e ent) string {
 		if e.perm {
-			return permuteCase(r, e.key)
+			return permuteCase(kit.NewRand(salt).Split(e.key), e.key)
 		}
 		return e.key
 	})
@@ -354,45 +356,6 @@ func sameOutcome(a, b outcome) (bool, string) {
 		return false, "value"
 	}
 	return true, ""
-}
-
-// shapeClass names the container path above struct levels of a type ("slice-of-map" …); used to
-// classify key-case violations, which depend on the type and not on a mismatch in the document.
-func shapeClass(t *tdesc) string {
-	set := map[string]bool{}
-	var walk func(t *tdesc, path string)
-	walk = func(t *tdesc, path string) {
-		switch t.k {
-		case tPtr:
-			walk(t.elem, path)
-		case tSlice:
-			walk(t.elem, path+"slice>")
-		case tMap:
-			walk(t.elem, path+"map>")
-		case tStruct:
-			if path != "" {
-				set[path+"struct"] = true
-			}
-			for _, f := range t.fields {
-				walk(f.t, "")
-			}
-		}
-	}
-	walk(t, "")
-	var out []string
-	for _, k := range []string{"slice>struct", "map>struct", "slice>map>struct", "map>slice>struct", "map>map>struct", "slice>slice>struct"} {
-		if set[k] {
-			out = append(out, k)
-			delete(set, k)
-		}
-	}
-	if len(set) > 0 {
-		out = append(out, "deeper-nesting")
-	}
-	if len(out) == 0 {
-		return "plain-nesting"
-	}
-	return strings.Join(out, "+")
 }
 
 // mapKeyEqualsFieldName: some data key of a map in the document equals, ignoring case, a key
@@ -493,23 +456,22 @@ func runPair(c *kit.Case, t *tdesc, plain bool, scratch string, idx int) {
 			}
 			// ---- oracle 2: key-case permutation
 			if comparable && d0.hasPermKeys() {
-				if bad, kind, wit := keyCase(c, r, rs, t.rt, label, d0, tx0, res0); len(bad) > 0 {
+				salt := r.Uint64()
+				if bad, kind, wit := keyCase(c, salt, rs, t.rt, label, d0, tx0, res0); len(bad) > 0 {
 					lab, dd := label, d0
 					if base != nil && base.hasPermKeys() {
 						txb := renderAll(base, rs)
 						if selfCheck(c, base, txb) {
 							if resb, ok, _ := threeWay(c, t.rt, "well-typed", txb, false); ok {
-								if bb, kb, wb := keyCase(c, r, rs, t.rt, "well-typed", base, txb, resb); len(bb) > 0 && kb == kind {
-									lab, dd, bad, wit = "well-typed", base, bb, wb
+								if bb, kb, wb := keyCase(c, salt, rs, t.rt, "well-typed", base, txb, resb); len(bb) > 0 {
+									lab, dd, bad, kind, wit = "well-typed", base, bb, kb, wb
 								}
 							}
 						}
 					}
-					key := "C17/keycase-" + kind + "/" + labelClass(lab)
-					if lab == "well-typed" || lab == "extra-key" || strings.HasPrefix(lab, "missing-") {
-						key += "/" + shapeClass(t)
-					}
-					key += "/" + strings.Join(bad, "+")
+					// the class of the failing input is "keys re-spelled"; which mismatch the document
+					// carries elsewhere is in the witness (label), not in the key
+					key := "C17/keycase-" + kind + "/" + strings.Join(bad, "+")
 					if mapKeyEqualsFieldName(dd) {
 						// one class whatever else the document contains
 						key = "C17/keycase/map-key-equals-a-field-name"
@@ -739,15 +701,15 @@ func runStdPair(c *kit.Case, t *tdesc) {
 // ---------------------------------------------------------------- ${VAR} family
 
 type EnvConf struct {
-	Name string            `json:"name"`
+	Name string            `json:"userName"`
 	Addr string            `json:"addr,optional"`
-	Port int               `json:"port"`
+	Port int               `json:"PORT"`
 	Tags []string          `json:"tags"`
-	Meta map[string]string `json:"meta"`
+	Meta map[string]string `json:"MetaData"`
 	Sub  struct {
-		Path    string `json:"path"`
+		Path    string `json:"filePath"`
 		Retries int    `json:"retries,default=3"`
-	} `json:"sub"`
+	} `json:"Sub"`
 }
 
 // normEnv: the statement does not distinguish nil from empty containers in the harness's
@@ -836,12 +798,12 @@ func runEnv(c *kit.Case, scratch string) {
 			meta.ents = append(meta.ents, ent{key: k, v: sn(v)})
 		}
 	}
-	sub := &node{k: nMap, ents: []ent{{key: "path", v: sn(lit.Sub.Path), perm: true}}}
+	sub := &node{k: nMap, ents: []ent{{key: "filePath", v: sn(lit.Sub.Path), perm: true}}}
 	if hasRetries {
 		sub.ents = append(sub.ents, ent{key: "retries", v: &node{k: nInt, i: int64(lit.Sub.Retries)}, perm: true})
 	}
-	doc := &node{k: nMap, ents: []ent{{key: "name", v: sn(lit.Name), perm: true}, {key: "port", v: port, perm: true},
-		{key: "tags", v: tags, perm: true}, {key: "meta", v: meta, perm: true}, {key: "sub", v: sub, perm: true}}}
+	doc := &node{k: nMap, ents: []ent{{key: "userName", v: sn(lit.Name), perm: true}, {key: "PORT", v: port, perm: true},
+		{key: "tags", v: tags, perm: true}, {key: "MetaData", v: meta, perm: true}, {key: "Sub", v: sub, perm: true}}}
 	if hasAddr {
 		doc.ents = append(doc.ents, ent{key: "addr", v: sn(lit.Addr), perm: true})
 	}
@@ -861,6 +823,16 @@ func runEnv(c *kit.Case, scratch string) {
 	}
 	placeholders := !reflect.DeepEqual(exp, lit)
 
+	if r.Chance(0.6) {
+		// keys are matched case-insensitively (map keys such as "Key Two" are data and stay)
+		doc = doc.clone(func(e ent) string {
+			if e.perm {
+				return permuteCase(r, e.key)
+			}
+			return e.key
+		})
+		c.Obs("env_documents_with_recased_keys", 1)
+	}
 	rs := kit.NewRand(r.Uint64())
 	tx := renderAll(doc, rs)
 	if !numericPlaceholder && !selfCheck(c, doc, tx) {
